@@ -3,8 +3,12 @@ package c06
 import (
 	"encoding/json"
 	"fmt"
+	"os"
 	"strings"
+	"sync"
+	"sync/atomic"
 	"testing"
+	"time"
 
 	fpgo "github.com/TeaEntityLab/fpGo/v2"
 	"pgregory.net/rapid"
@@ -12,7 +16,60 @@ import (
 	"verifharness/vlib"
 )
 
-func TestMain(m *testing.M) { vlib.Main(m) }
+func TestMain(m *testing.M) {
+	go watchdog()
+	vlib.Main(m)
+}
+
+// ---------------------------------------------------------------- hang watchdog
+//
+// Every walk inside LinkedListQueue is bounded by the number of nodes, so a history that
+// does not return has run into a cycle of links: that is a violation ("no sequence panics"
+// / returns what the ideal deque returns). The stuck goroutine cannot be interrupted, so
+// the watchdog writes the replay, reports and ends the process.
+
+var (
+	wdMu      sync.Mutex
+	wdHistory []op
+	wdDrain   int
+	wdTicks   int64 // incremented at the start and end of every history
+)
+
+func wdBegin(h []op, drain int) {
+	wdMu.Lock()
+	wdHistory = append(wdHistory[:0], h...)
+	wdDrain = drain
+	wdMu.Unlock()
+	atomic.AddInt64(&wdTicks, 1)
+}
+
+func wdEnd() { atomic.AddInt64(&wdTicks, 1) }
+
+func watchdog() {
+	last, since := int64(-1), time.Now()
+	for {
+		time.Sleep(500 * time.Millisecond)
+		t := atomic.LoadInt64(&wdTicks)
+		if t != last || t%2 == 0 { // progress, or no history in flight
+			last, since = t, time.Now()
+			continue
+		}
+		if time.Since(since) < 20*time.Second {
+			continue
+		}
+		wdMu.Lock()
+		h := append([]op(nil), wdHistory...)
+		d := wdDrain
+		wdMu.Unlock()
+		if vlib.Known("C06/hang") {
+			os.Exit(0)
+		}
+		vlib.WriteReplay("C06/history", map[string]any{"ops": h, "drain": d, "readable": histString(h), "failure": "history did not return within 20s (cycle in the node links)"})
+		fmt.Printf("FAILKEY: C06/hang\n--- FAIL: history [%s] drain=%d did not return within 20s: a walk over the node links does not terminate (cycle)\n", histString(h), d)
+		vlib.S().Flush()
+		os.Exit(1)
+	}
+}
 
 // ---------------------------------------------------------------- operations
 
@@ -90,6 +147,8 @@ type outcome struct {
 // value mapping: element i of the history is represented by conv(i)
 func runHistory[T comparable](h []op, conv func(int) T, drainMode int) outcome {
 	var out outcome
+	wdBegin(h, drainMode)
+	defer wdEnd()
 	p, stack := vlib.Try(func() {
 		q := fpgo.NewLinkedListQueue[T]()
 		var qi fpgo.Queue[T] = q
@@ -285,8 +344,8 @@ func firstFrames(stack string) string {
 	return strings.Join(keep, "\n")
 }
 
-func convInt(i int) int       { return 100 + i }
-func convStr(i int) string    { return fmt.Sprintf("v%d", i) }
+func convInt(i int) int    { return 100 + i }
+func convStr(i int) string { return fmt.Sprintf("v%d", i) }
 
 type rec struct {
 	A int
